@@ -15,8 +15,8 @@ from .gen import hash64
 
 VERIF = os.path.dirname(os.path.dirname(os.path.abspath(__file__)))
 REPO = os.environ.get('DSIM_REPO', '/repo')
-REPLAYS = os.path.join(VERIF, 'replays')
-EVIDENCE = os.path.join(VERIF, 'evidence')
+REPLAYS = os.environ.get('DSIM_REPLAYS_DIR') or os.path.join(VERIF, 'replays')
+EVIDENCE = os.environ.get('DSIM_EVIDENCE_DIR') or os.path.join(VERIF, 'evidence')
 NPROC = int(os.environ.get('DSIM_JOBS', '16'))
 
 
